@@ -61,6 +61,10 @@ fn main() {
 				props::c02::run(&mut out, &mut rng.fork(), thorough);
 			}
 			"C04" => {
+				// Correspondences of the engines whose no-panic theorems C04 lists.
+				engines::input::run(&mut out, &mut rng.fork(), thorough);
+				engines::chunker::run(&mut out, &mut rng.fork(), thorough);
+				engines::transcode::run(&mut out, &mut rng.fork(), thorough);
 				props::c04::run(&mut out, &mut rng.fork(), thorough);
 			}
 			"C06" => {
